@@ -10,6 +10,7 @@ import XPathV.Theorems.C12
 #print axioms XPathV.Theorems.C12.single_descendant_sorted
 #print axioms XPathV.Theorems.C12.C12_flat_with_predicates_sorted
 #print axioms XPathV.Theorems.C12.C12_flat_filtered_is_oracle_list
+#print axioms XPathV.Theorems.C12.C12_flat_filtered_is_oracle_list_unconditional
 #print axioms XPathV.Theorems.C12.C12_slashslash_sorted
 #print axioms XPathV.Theorems.C12.C12_all_iterators_refine_sequence
 #print axioms XPathV.Theorems.C12.C12_exhausted_for_ever
